@@ -168,6 +168,7 @@ func Load(cfg Config) (*Ctx, error) {
 			}
 		})
 	}
+	c.computeHosts()
 	c.declIdx = map[*types.Func]*ast.FuncDecl{}
 	for _, p := range c.ByRel {
 		for _, f := range p.Syntax {
